@@ -365,123 +365,6 @@ variable {P : LP} {t : Tab}
 /-- one iteration of `_phase2` that pivots: `setBasis (pivot 0 t l e) l e` -/
 def stepTab (t : Tab) (l e : ℕ) : Tab := setBasis (pivot 0 t l e) l e
 
-theorem step_e (h : t.WF P.m (P.n + P.m + 1)) {l : ℕ} (hl : l < P.m) (e i : ℕ) (hi : i < P.m) (c : ℕ) :
-    (stepTab t l e).e i c =
-      if i = l then t.e l c * (1 / t.e l e) else t.e i c - t.e i e * (t.e l c * (1 / t.e l e)) := by
-  unfold stepTab; rw [setBasis_e, pivot_e h l e hl i hi c]
-
-theorem step_oe (h : t.WF P.m (P.n + P.m + 1)) {l : ℕ} (hl : l < P.m) (e c : ℕ) :
-    (stepTab t l e).oe c = t.oe c - t.oe e * (t.e l c * (1 / t.e l e)) := by
-  unfold stepTab; rw [setBasis_oe, pivot_oe h l e hl c]
-
-theorem step_bs (h : t.WF P.m (P.n + P.m + 1)) {l : ℕ} (hl : l < P.m) (e i : ℕ) :
-    (stepTab t l e).bs i = if i = l then e else t.bs i := by
-  unfold stepTab
-  rw [setBasis_bs (pivot_wf h l e hl) l e hl i, pivot_bs]
-
-theorem inv_step (h : Inv P t) {l e : ℕ} (hl : l < P.m) (he : e < P.n + P.m)
-    (hpv : t.e l e > 0)
-    (hmin : ∀ i < P.m, t.e i e > 0 →
-      t.e l (P.n + P.m) / t.e l e ≤ t.e i (P.n + P.m) / t.e i e) :
-    Inv P (stepTab t l e) := by
-  have hpv0 : t.e l e ≠ 0 := ne_of_gt hpv
-  have hwf := h.wf
-  refine ⟨setBasis_wf (pivot_wf hwf l e hl) l e, ?_, ?_, ?_, ?_, ?_, ?_, ?_⟩
-  · -- rows stay in S
-    intro i hi
-    have : (stepTab t l e).e i = fun c =>
-        if i = l then t.e l c * (1 / t.e l e) else t.e i c - t.e i e * (t.e l c * (1 / t.e l e)) :=
-      funext fun c => step_e hwf hl e i hi c
-    rw [this]
-    by_cases hil : i = l
-    · simp only [hil, if_true]; exact (h.rowS l hl).smul _
-    · simp only [hil, if_false]; exact (h.rowS i hi).sub_smul (h.rowS l hl) _ _
-  · -- objective row stays in w̄ + S
-    have : (fun c => (stepTab t l e).oe c - wbar P c) = fun c =>
-        (t.oe c - wbar P c) - t.oe e * (t.e l c * (1 / t.e l e)) :=
-      funext fun c => by rw [step_oe hwf hl e c]; ring
-    rw [this]
-    exact h.objS.sub_smul (h.rowS l hl) _ _
-  · intro i hi
-    rw [step_bs hwf hl e i]
-    split
-    · exact he
-    · exact h.bs_lt i hi
-  · -- basic columns are unit vectors
-    intro i hi k hk
-    rw [step_bs hwf hl e k, step_e hwf hl e i hi]
-    have hinv : t.e l e * (1 / t.e l e) = 1 := mul_one_div_cancel hpv0
-    by_cases hkl : k = l
-    · rw [if_pos hkl]
-      by_cases hil : i = l
-      · rw [if_pos hil, hinv, if_pos (hil.trans hkl.symm)]
-      · rw [if_neg hil, hinv, if_neg (fun e => hil (e.trans hkl))]; ring
-    · rw [if_neg hkl]
-      have hlk : t.e l (t.bs k) = 0 := by rw [h.unit l hl k hk, if_neg (fun e => hkl e.symm)]
-      rw [hlk]
-      by_cases hil : i = l
-      · rw [if_pos hil, if_neg (fun e => hkl (e.symm.trans hil))]; ring
-      · rw [if_neg hil, h.unit i hi k hk]; ring
-  · intro k hk
-    rw [step_bs hwf hl e k, step_oe hwf hl e]
-    have hinv : t.e l e * (1 / t.e l e) = 1 := mul_one_div_cancel hpv0
-    by_cases hkl : k = l
-    · rw [if_pos hkl, hinv]; ring
-    · rw [if_neg hkl, h.unit l hl k hk, if_neg (fun e => hkl e.symm), h.objB k hk]; ring
-  · -- same solution set
-    intro z
-    rw [← h.sol z]
-    have expand : ∀ i < P.m, ∑ c ∈ range (P.n + P.m + 1), (stepTab t l e).e i c * z c =
-        if i = l then (∑ c ∈ range (P.n + P.m + 1), t.e l c * z c) * (1 / t.e l e)
-        else (∑ c ∈ range (P.n + P.m + 1), t.e i c * z c)
-          - t.e i e * ((∑ c ∈ range (P.n + P.m + 1), t.e l c * z c) * (1 / t.e l e)) := by
-      intro i hi
-      by_cases hil : i = l
-      · simp only [hil, if_true]
-        rw [Finset.sum_mul]
-        exact Finset.sum_congr rfl fun c _ => by rw [step_e hwf hl e l hl c, if_pos rfl]; ring
-      · simp only [hil, if_false]
-        rw [Finset.sum_mul, Finset.mul_sum, ← Finset.sum_sub_distrib]
-        exact Finset.sum_congr rfl fun c _ => by rw [step_e hwf hl e i hi c, if_neg hil]; ring
-    constructor
-    · intro hz
-      have hzl : ∑ c ∈ range (P.n + P.m + 1), t.e l c * z c = 0 := by
-        have := hz l hl
-        rw [expand l hl, if_pos rfl] at this
-        have h1 : (1 / t.e l e) ≠ 0 := one_div_ne_zero hpv0
-        exact (mul_eq_zero.mp this).resolve_right h1
-      intro i hi
-      by_cases hil : i = l
-      · rw [hil]; exact hzl
-      · have := hz i hi
-        rw [expand i hi, if_neg hil, hzl] at this
-        simpa using this
-    · intro hz i hi
-      rw [expand i hi]
-      split
-      · rw [hz l hl]; ring
-      · rw [hz i hi, hz l hl]; ring
-  · -- right-hand sides stay non-negative (minimum ratio)
-    intro i hi
-    rw [step_e hwf hl e i hi]
-    have hrl := h.rhs l hl
-    by_cases hil : i = l
-    · simp only [hil, if_true]
-      exact mul_nonneg hrl (by positivity)
-    · simp only [hil, if_false]
-      have hri := h.rhs i hi
-      have hq : 0 ≤ t.e l (P.n + P.m) * (1 / t.e l e) := mul_nonneg hrl (by positivity)
-      by_cases hpos : t.e i e > 0
-      · have := hmin i hi hpos
-        rw [div_le_div_iff₀ hpv hpos] at this
-        have e1 : t.e i e * (t.e l (P.n + P.m) * (1 / t.e l e))
-            = (t.e l (P.n + P.m) * t.e i e) / t.e l e := by field_simp
-        rw [e1, sub_nonneg, div_le_iff₀ hpv]
-        linarith
-      · have : t.e i e * (t.e l (P.n + P.m) * (1 / t.e l e)) ≤ 0 :=
-          mul_nonpos_of_nonpos_of_nonneg (not_lt.mp hpos) hq
-        linarith
-
 end step
 
 /-! Part 4: reading the certificates off a tableau that satisfies the invariant -/
@@ -520,116 +403,6 @@ theorem origRow_sum (P : LP) (k : ℕ) (hk : k < P.m) (z : ℕ → ℚ) :
 section read
 variable {P : LP} {t : Tab}
 
-/-- value of variable `c` in the basic solution -/
-def basicVal (P : LP) (t : Tab) (c : ℕ) : ℚ :=
-  ∑ i ∈ range P.m, if t.bs i = c then t.e i (P.n + P.m) else 0
-
-theorem bs_inj (h : Inv P t) {i k : ℕ} (hi : i < P.m) (hk : k < P.m) (e : t.bs i = t.bs k) : i = k := by
-  have := h.unit i hi k hk
-  rw [← e, h.unit i hi i hi, if_pos rfl] at this
-  by_contra hne
-  rw [if_neg hne] at this
-  exact one_ne_zero this
-
-theorem basicVal_bs (h : Inv P t) {k : ℕ} (hk : k < P.m) : basicVal P t (t.bs k) = t.e k (P.n + P.m) := by
-  unfold basicVal
-  rw [Finset.sum_eq_single k]
-  · simp
-  · intro i hi hik
-    rw [if_neg (fun e => hik (bs_inj h (Finset.mem_range.mp hi) hk e))]
-  · intro hn; exact absurd (Finset.mem_range.mpr hk) hn
-
-theorem basicVal_nonneg (h : Inv P t) (c : ℕ) : 0 ≤ basicVal P t c := by
-  unfold basicVal
-  refine Finset.sum_nonneg fun i hi => ?_
-  split
-  · exact h.rhs i (Finset.mem_range.mp hi)
-  · exact le_refl _
-
-theorem basicVal_nonbasic (c : ℕ) (hc : ∀ i < P.m, t.bs i ≠ c) : basicVal P t c = 0 := by
-  unfold basicVal
-  exact Finset.sum_eq_zero fun i hi => by rw [if_neg (hc i (Finset.mem_range.mp hi))]
-
-/-- `∑_{c<N} v_c · basicVal_c = ∑_k v_{bs k} · rhs_k` -/
-theorem sum_mul_basicVal (h : Inv P t) (v : ℕ → ℚ) :
-    ∑ c ∈ range (P.n + P.m), v c * basicVal P t c =
-      ∑ k ∈ range P.m, v (t.bs k) * t.e k (P.n + P.m) := by
-  unfold basicVal
-  simp only [Finset.mul_sum]
-  rw [Finset.sum_comm]
-  refine Finset.sum_congr rfl fun k hk => ?_
-  rw [Finset.sum_eq_single (t.bs k)]
-  · simp
-  · intro c _ hc
-    rw [if_neg (fun e => hc e.symm)]; ring
-  · intro hn
-    exact absurd (Finset.mem_range.mpr (h.bs_lt k (Finset.mem_range.mp hk))) hn
-
-/-- the basic solution (with `−1` in the last place) is annihilated by every tableau row, hence by
-every original row: `A x + s = b` -/
-theorem basic_primal (h : Inv P t) {k : ℕ} (hk : k < P.m) :
-    ∑ j ∈ range P.n, P.a k j * basicVal P t j + basicVal P t (P.n + k) = vget P.b k := by
-  let z : ℕ → ℚ := fun c => if c < P.n + P.m then basicVal P t c else -1
-  have hrows : ∀ i < P.m, ∑ c ∈ range (P.n + P.m + 1), t.e i c * z c = 0 := by
-    intro i hi
-    rw [Finset.sum_range_succ]
-    have e1 : ∑ c ∈ range (P.n + P.m), t.e i c * z c = ∑ c ∈ range (P.n + P.m), t.e i c * basicVal P t c :=
-      Finset.sum_congr rfl fun c hc => by simp only [z, if_pos (Finset.mem_range.mp hc)]
-    rw [e1, sum_mul_basicVal h (t.e i)]
-    have e2 : ∑ k ∈ range P.m, t.e i (t.bs k) * t.e k (P.n + P.m) = t.e i (P.n + P.m) := by
-      rw [Finset.sum_eq_single i]
-      · rw [h.unit i hi i hi, if_pos rfl]; ring
-      · intro k hk hki
-        rw [h.unit i hi k (Finset.mem_range.mp hk), if_neg (fun e => hki e.symm)]; ring
-      · intro hn; exact absurd (Finset.mem_range.mpr hi) hn
-    rw [e2]
-    simp [z]
-  have := (h.sol z).mp hrows k hk
-  rw [origRow_sum P k hk z] at this
-  have e3 : ∑ j ∈ range P.n, P.a k j * z j = ∑ j ∈ range P.n, P.a k j * basicVal P t j :=
-    Finset.sum_congr rfl fun j hj => by
-      have : j < P.n + P.m := Nat.lt_of_lt_of_le (Finset.mem_range.mp hj) (Nat.le_add_right _ _)
-      simp only [z, if_pos this]
-  have e4 : z (P.n + k) = basicVal P t (P.n + k) := by
-    have : P.n + k < P.n + P.m := by omega
-    simp only [z, if_pos this]
-  have e5 : z (P.n + P.m) = -1 := by simp [z]
-  rw [e3, e4, e5] at this
-  linarith
-
-/-- `_extract` reads the basic solution -/
-theorem vget_extractX (h : Inv P t) {j : ℕ} (hj : j < P.n) :
-    vget (extractX t P.n) j = basicVal P t j := by
-  unfold vget extractX
-  rw [List.getD_eq_getElem?_getD, List.getElem?_map, List.getElem?_range hj]
-  simp only [Option.map_some, Option.getD_some]
-  cases hidx : t.basis.idxOf? j with
-  | none =>
-    simp only []
-    unfold List.idxOf? at hidx
-    rw [List.findIdx?_eq_none_iff] at hidx
-    symm
-    apply basicVal_nonbasic
-    intro i hi hb
-    have hi' : i < t.basis.length := by rw [h.wf.basis_len]; exact hi
-    have hm : t.basis[i] ∈ t.basis := List.getElem_mem hi'
-    have := hidx _ hm
-    have hbi : t.basis[i] = j := by
-      rw [← hb]; simp [Tab.bs, List.getD_eq_getElem?_getD, List.getElem?_eq_getElem hi']
-    rw [hbi] at this
-    simp at this
-  | some i =>
-    simp only []
-    unfold List.idxOf? at hidx
-    rw [List.findIdx?_eq_some_iff_getElem] at hidx
-    obtain ⟨hi', hb, _⟩ := hidx
-    have hi : i < P.m := by rw [← h.wf.basis_len]; exact hi'
-    have hbi : t.bs i = j := by
-      simp only [Tab.bs, List.getD_eq_getElem?_getD, List.getElem?_eq_getElem hi', Option.getD_some]
-      simpa using hb
-    rw [lastR_eq h.wf (Nat.succ_pos _) hi, ← hbi]
-    exact (basicVal_bs h hi).symm
-
 /-- the dual / Farkas vector read off the slack columns -/
 theorem vget_slack (t : Tab) (n m : ℕ) {k : ℕ} (hk : k < m) :
     vget ((t.obj.drop n).take m) k = t.oe (n + k) := by
@@ -641,170 +414,10 @@ theorem vget_slack (t : Tab) (n m : ℕ) {k : ℕ} (hk : k < m) :
 def rayVal (P : LP) (t : Tab) (e c : ℕ) : ℚ :=
   if c = e then 1 else ∑ i ∈ range P.m, if t.bs i = c then -(t.e i e) else 0
 
-theorem vget_extractRay (h : Inv P t) (e : ℕ) {j : ℕ} (hj : j < P.n) :
-    vget (extractRay t P.n e) j = rayVal P t e j := by
-  unfold vget extractRay rayVal
-  rw [List.getD_eq_getElem?_getD, List.getElem?_map, List.getElem?_range hj]
-  simp only [Option.map_some, Option.getD_some]
-  by_cases hje : j = e
-  · rw [if_pos hje, if_pos hje]
-  · rw [if_neg hje, if_neg hje]
-    cases hidx : t.basis.idxOf? j with
-    | none =>
-      simp only []
-      unfold List.idxOf? at hidx
-      rw [List.findIdx?_eq_none_iff] at hidx
-      symm
-      refine Finset.sum_eq_zero fun i hi => ?_
-      have hi' : i < t.basis.length := by rw [h.wf.basis_len]; exact Finset.mem_range.mp hi
-      rw [if_neg]
-      intro hb
-      have hm : t.basis[i] ∈ t.basis := List.getElem_mem hi'
-      have := hidx _ hm
-      have hbi : t.basis[i] = j := by
-        rw [← hb]; simp [Tab.bs, List.getD_eq_getElem?_getD, List.getElem?_eq_getElem hi']
-      rw [hbi] at this
-      simp at this
-    | some i =>
-      simp only []
-      unfold List.idxOf? at hidx
-      rw [List.findIdx?_eq_some_iff_getElem] at hidx
-      obtain ⟨hi', hb, _⟩ := hidx
-      have hi : i < P.m := by rw [← h.wf.basis_len]; exact hi'
-      have hbi : t.bs i = j := by
-        simp only [Tab.bs, List.getD_eq_getElem?_getD, List.getElem?_eq_getElem hi', Option.getD_some]
-        simpa using hb
-      rw [Finset.sum_eq_single i]
-      · rw [if_pos hbi]; rfl
-      · intro k hk hki
-        rw [if_neg]
-        intro hbk
-        exact hki (bs_inj h (Finset.mem_range.mp hk) hi (hbk.trans hbi.symm))
-      · intro hn; exact absurd (Finset.mem_range.mpr hi) hn
-
 theorem wbar_lt {j : ℕ} (hj : j < P.n) : wbar P j = vget P.c j := by simp [wbar, hj]
 theorem wbar_ge (k : ℕ) : wbar P (P.n + k) = 0 := by
   have : ¬ (P.n + k < P.n) := by omega
   simp [wbar, this]
-
-/-- reduced costs in terms of the slack part of the objective row -/
-theorem oe_struct (h : Inv P t) {j : ℕ} (hj : j < P.n) :
-    t.oe j = vget P.c j + ∑ k ∈ range P.m, t.oe (P.n + k) * P.a k j := by
-  have := h.objS.1 j hj
-  simp only [wbar_lt hj, wbar_ge, sub_zero] at this
-  linarith
-
-theorem oe_last (h : Inv P t) : t.oe (P.n + P.m) = ∑ k ∈ range P.m, t.oe (P.n + k) * vget P.b k := by
-  have := h.objS.2
-  simp only [wbar_ge, sub_zero] at this
-  exact this
-
-theorem oe_nonneg (h : Inv P t) (hn : findEnter 0 t = none) {c : ℕ} (hc : c < P.n + P.m) : 0 ≤ t.oe c := by
-  by_cases hb : ∃ i < P.m, t.bs i = c
-  · obtain ⟨i, hi, rfl⟩ := hb
-    rw [h.objB i hi]
-  · refine findEnter_none h.wf hn c (by simpa using hc) (fun i hi e => hb ⟨i, hi, e⟩)
-
-/-- complementary slackness of the basic solution: `c·x = −(objective row)_last` -/
-theorem basic_objective (h : Inv P t) :
-    ∑ j ∈ range P.n, vget P.c j * basicVal P t j = -t.oe (P.n + P.m) := by
-  have cs : ∑ c ∈ range (P.n + P.m), t.oe c * basicVal P t c = 0 := by
-    rw [sum_mul_basicVal h t.oe]
-    exact Finset.sum_eq_zero fun k hk => by rw [h.objB k (Finset.mem_range.mp hk)]; ring
-  rw [Finset.sum_range_add] at cs
-  have e1 : ∑ j ∈ range P.n, t.oe j * basicVal P t j =
-      ∑ j ∈ range P.n, vget P.c j * basicVal P t j +
-        ∑ k ∈ range P.m, t.oe (P.n + k) * ∑ j ∈ range P.n, P.a k j * basicVal P t j := by
-    have : ∀ j ∈ range P.n, t.oe j * basicVal P t j =
-        vget P.c j * basicVal P t j + ∑ k ∈ range P.m, t.oe (P.n + k) * (P.a k j * basicVal P t j) := by
-      intro j hj
-      rw [oe_struct h (Finset.mem_range.mp hj), add_mul, Finset.sum_mul]
-      congr 1
-      exact Finset.sum_congr rfl fun k _ => by ring
-    rw [Finset.sum_congr rfl this, Finset.sum_add_distrib, Finset.sum_comm]
-    congr 1
-    exact Finset.sum_congr rfl fun k _ => by rw [Finset.mul_sum]
-  have e2 : ∑ k ∈ range P.m, t.oe (P.n + k) * ∑ j ∈ range P.n, P.a k j * basicVal P t j =
-      ∑ k ∈ range P.m, t.oe (P.n + k) * vget P.b k -
-        ∑ k ∈ range P.m, t.oe (P.n + k) * basicVal P t (P.n + k) := by
-    rw [← Finset.sum_sub_distrib]
-    refine Finset.sum_congr rfl fun k hk => ?_
-    have := basic_primal h (Finset.mem_range.mp hk)
-    rw [← this]; ring
-  rw [e1, e2, ← oe_last h] at cs
-  linarith
-
-/-- **OPTIMAL**: no entering column on an invariant tableau ⇒ the read-off `(x, y)` passes
-`chkOptimal`. -/
-theorem cert_optimal (h : Inv P t) (hn : findEnter 0 t = none) :
-    chkOptimal P (extractX t P.n) ((t.obj.drop P.n).take P.m) = true := by
-  unfold chkOptimal chkFeasible
-  simp only [Bool.and_eq_true, allTo_iff_lt, decide_eq_true_eq]
-  have hx : ∀ j < P.n, vget (extractX t P.n) j = basicVal P t j := fun j hj => vget_extractX h hj
-  have hy : ∀ k < P.m, vget ((t.obj.drop P.n).take P.m) k = t.oe (P.n + k) :=
-    fun k hk => vget_slack t P.n P.m hk
-  refine ⟨⟨⟨⟨?_, ?_⟩, ?_⟩, ?_⟩, ?_⟩
-  · intro j hj; rw [hx j hj]; exact basicVal_nonneg h j
-  · intro i hi
-    unfold LP.rowDot
-    rw [sumTo_eq_range, Finset.sum_congr rfl fun j hj => by rw [hx j (Finset.mem_range.mp hj)]]
-    have := basic_primal h hi
-    have := basicVal_nonneg h (P.n + i)
-    linarith
-  · intro k hk; rw [hy k hk]; exact oe_nonneg h hn (by omega)
-  · intro j hj
-    unfold LP.colDot
-    rw [sumTo_eq_range, Finset.sum_congr rfl fun k hk => by rw [hy k (Finset.mem_range.mp hk)],
-      ← oe_struct h hj]
-    exact oe_nonneg h hn (by omega)
-  · unfold LP.objAt LP.rhsDot
-    rw [sumTo_eq_range, sumTo_eq_range]
-    have e1 : ∑ j ∈ range P.n, vget P.c j * vget (extractX t P.n) j =
-        ∑ j ∈ range P.n, vget P.c j * basicVal P t j :=
-      Finset.sum_congr rfl fun j hj => by rw [hx j (Finset.mem_range.mp hj)]
-    have e2 : ∑ k ∈ range P.m, vget ((t.obj.drop P.n).take P.m) k * vget P.b k =
-        ∑ k ∈ range P.m, t.oe (P.n + k) * vget P.b k :=
-      Finset.sum_congr rfl fun k hk => by rw [hy k (Finset.mem_range.mp hk)]
-    rw [e1, e2, basic_objective h, oe_last h]
-
-/-- `∑_{c<N} v_c · (∑_i [bs i = c] g_i) = ∑_k v_{bs k} · g_k` -/
-theorem sum_mul_basicComb (h : Inv P t) (v g : ℕ → ℚ) :
-    ∑ c ∈ range (P.n + P.m), v c * (∑ i ∈ range P.m, if t.bs i = c then g i else 0) =
-      ∑ k ∈ range P.m, v (t.bs k) * g k := by
-  simp only [Finset.mul_sum]
-  rw [Finset.sum_comm]
-  refine Finset.sum_congr rfl fun k hk => ?_
-  rw [Finset.sum_eq_single (t.bs k)]
-  · simp
-  · intro c _ hc
-    rw [if_neg (fun e => hc e.symm)]; ring
-  · intro hn
-    exact absurd (Finset.mem_range.mpr (h.bs_lt k (Finset.mem_range.mp hk))) hn
-
-/-- the objective row applied to a vector `u` that satisfies `A u_x + u_s = β` -/
-theorem oe_dot (h : Inv P t) (u β : ℕ → ℚ)
-    (hu : ∀ k < P.m, ∑ j ∈ range P.n, P.a k j * u j + u (P.n + k) = β k) :
-    ∑ c ∈ range (P.n + P.m), t.oe c * u c =
-      ∑ j ∈ range P.n, vget P.c j * u j + ∑ k ∈ range P.m, t.oe (P.n + k) * β k := by
-  rw [Finset.sum_range_add]
-  have e1 : ∑ j ∈ range P.n, t.oe j * u j =
-      ∑ j ∈ range P.n, vget P.c j * u j +
-        ∑ k ∈ range P.m, t.oe (P.n + k) * ∑ j ∈ range P.n, P.a k j * u j := by
-    have : ∀ j ∈ range P.n, t.oe j * u j =
-        vget P.c j * u j + ∑ k ∈ range P.m, t.oe (P.n + k) * (P.a k j * u j) := by
-      intro j hj
-      rw [oe_struct h (Finset.mem_range.mp hj), add_mul, Finset.sum_mul]
-      congr 1
-      exact Finset.sum_congr rfl fun k _ => by ring
-    rw [Finset.sum_congr rfl this, Finset.sum_add_distrib, Finset.sum_comm]
-    congr 1
-    exact Finset.sum_congr rfl fun k _ => by rw [Finset.mul_sum]
-  have e2 : ∑ k ∈ range P.m, t.oe (P.n + k) * ∑ j ∈ range P.n, P.a k j * u j =
-      ∑ k ∈ range P.m, t.oe (P.n + k) * β k - ∑ k ∈ range P.m, t.oe (P.n + k) * u (P.n + k) := by
-    rw [← Finset.sum_sub_distrib]
-    refine Finset.sum_congr rfl fun k hk => ?_
-    rw [← hu k (Finset.mem_range.mp hk)]; ring
-  rw [e1, e2]; ring
 
 /-- the ray as `[c = e] + ∑_i [bs i = c] (−T_ie)` when `e` is non-basic -/
 theorem rayVal_eq (e c : ℕ) (hnb : ∀ i < P.m, t.bs i ≠ e) :
@@ -817,54 +430,6 @@ theorem rayVal_eq (e c : ℕ) (hnb : ∀ i < P.m, t.bs i ≠ e) :
     rw [this]; ring
   · rw [if_neg hce, if_neg hce]; ring
 
-theorem sum_mul_rayVal (h : Inv P t) {e : ℕ} (he : e < P.n + P.m) (hnb : ∀ i < P.m, t.bs i ≠ e)
-    (v : ℕ → ℚ) :
-    ∑ c ∈ range (P.n + P.m), v c * rayVal P t e c = v e - ∑ k ∈ range P.m, v (t.bs k) * t.e k e := by
-  have : ∀ c ∈ range (P.n + P.m), v c * rayVal P t e c =
-      v c * (if c = e then 1 else 0) + v c * ∑ i ∈ range P.m, if t.bs i = c then -(t.e i e) else 0 :=
-    fun c _ => by rw [rayVal_eq e c hnb]; ring
-  rw [Finset.sum_congr rfl this, Finset.sum_add_distrib, sum_mul_basicComb h v (fun i => -(t.e i e))]
-  have e1 : ∑ c ∈ range (P.n + P.m), v c * (if c = e then (1 : ℚ) else 0) = v e := by
-    rw [Finset.sum_eq_single e]
-    · simp
-    · intro c _ hc; rw [if_neg hc]; ring
-    · intro hn; exact absurd (Finset.mem_range.mpr he) hn
-  rw [e1, sub_eq_add_neg, ← Finset.sum_neg_distrib]
-  congr 1
-  exact Finset.sum_congr rfl fun k _ => by ring
-
-/-- the ray satisfies the homogeneous system `A d_x + d_s = 0` -/
-theorem ray_primal (h : Inv P t) {e : ℕ} (he : e < P.n + P.m) (hnb : ∀ i < P.m, t.bs i ≠ e)
-    {k : ℕ} (hk : k < P.m) :
-    ∑ j ∈ range P.n, P.a k j * rayVal P t e j + rayVal P t e (P.n + k) = 0 := by
-  let z : ℕ → ℚ := fun c => if c < P.n + P.m then rayVal P t e c else 0
-  have hrows : ∀ i < P.m, ∑ c ∈ range (P.n + P.m + 1), t.e i c * z c = 0 := by
-    intro i hi
-    rw [Finset.sum_range_succ]
-    have e1 : ∑ c ∈ range (P.n + P.m), t.e i c * z c = ∑ c ∈ range (P.n + P.m), t.e i c * rayVal P t e c :=
-      Finset.sum_congr rfl fun c hc => by simp only [z, if_pos (Finset.mem_range.mp hc)]
-    rw [e1, sum_mul_rayVal h he hnb (t.e i)]
-    have e2 : ∑ k ∈ range P.m, t.e i (t.bs k) * t.e k e = t.e i e := by
-      rw [Finset.sum_eq_single i]
-      · rw [h.unit i hi i hi, if_pos rfl]; ring
-      · intro k hk hki
-        rw [h.unit i hi k (Finset.mem_range.mp hk), if_neg (fun e => hki e.symm)]; ring
-      · intro hn; exact absurd (Finset.mem_range.mpr hi) hn
-    rw [e2]
-    simp [z]
-  have := (h.sol z).mp hrows k hk
-  rw [origRow_sum P k hk z] at this
-  have e3 : ∑ j ∈ range P.n, P.a k j * z j = ∑ j ∈ range P.n, P.a k j * rayVal P t e j :=
-    Finset.sum_congr rfl fun j hj => by
-      have : j < P.n + P.m := Nat.lt_of_lt_of_le (Finset.mem_range.mp hj) (Nat.le_add_right _ _)
-      simp only [z, if_pos this]
-  have e4 : z (P.n + k) = rayVal P t e (P.n + k) := by
-    have : P.n + k < P.n + P.m := by omega
-    simp only [z, if_pos this]
-  have e5 : z (P.n + P.m) = 0 := by simp [z]
-  rw [e3, e4, e5] at this
-  linarith
-
 theorem rayVal_nonneg (e c : ℕ) (hle : ∀ i < P.m, t.e i e ≤ 0) : 0 ≤ rayVal P t e c := by
   unfold rayVal
   split
@@ -873,47 +438,6 @@ theorem rayVal_nonneg (e c : ℕ) (hle : ∀ i < P.m, t.e i e ≤ 0) : 0 ≤ ray
     split
     · have := hle i (Finset.mem_range.mp hi); linarith
     · exact le_refl _
-
-/-- **UNBOUNDED**: an entering column without a leaving row on an invariant tableau ⇒ the read-off
-vertex and ray pass `chkUnbounded`. -/
-theorem cert_unbounded (h : Inv P t) {e : ℕ} (hs : findEnter 0 t = some e)
-    (hl : findLeave 0 t e = none) :
-    chkUnbounded P (extractX t P.n) (extractRay t P.n e) = true := by
-  obtain ⟨he, hnb, hneg⟩ := findEnter_some h.wf hs
-  have he : e < P.n + P.m := by simpa using he
-  have hle := findLeave_none h.wf (Nat.succ_pos _) hl
-  unfold chkUnbounded chkFeasible
-  simp only [Bool.and_eq_true, allTo_iff_lt, decide_eq_true_eq]
-  have hx : ∀ j < P.n, vget (extractX t P.n) j = basicVal P t j := fun j hj => vget_extractX h hj
-  have hd : ∀ j < P.n, vget (extractRay t P.n e) j = rayVal P t e j := fun j hj => vget_extractRay h e hj
-  refine ⟨⟨⟨⟨?_, ?_⟩, ?_⟩, ?_⟩, ?_⟩
-  · intro j hj; rw [hx j hj]; exact basicVal_nonneg h j
-  · intro i hi
-    unfold LP.rowDot
-    rw [sumTo_eq_range, Finset.sum_congr rfl fun j hj => by rw [hx j (Finset.mem_range.mp hj)]]
-    have := basic_primal h hi
-    have := basicVal_nonneg h (P.n + i)
-    linarith
-  · intro j hj; rw [hd j hj]; exact rayVal_nonneg e j hle
-  · intro i hi
-    unfold LP.rowDot
-    rw [sumTo_eq_range, Finset.sum_congr rfl fun j hj => by rw [hd j (Finset.mem_range.mp hj)]]
-    have := ray_primal h he hnb hi
-    have := rayVal_nonneg (P := P) (t := t) e (P.n + i) hle
-    linarith
-  · unfold LP.objAt
-    rw [sumTo_eq_range]
-    have e1 : ∑ j ∈ range P.n, vget P.c j * vget (extractRay t P.n e) j =
-        ∑ j ∈ range P.n, vget P.c j * rayVal P t e j :=
-      Finset.sum_congr rfl fun j hj => by rw [hd j (Finset.mem_range.mp hj)]
-    rw [e1]
-    have hdot := oe_dot h (rayVal P t e) (fun _ => 0) (fun k hk => ray_primal h he hnb hk)
-    rw [sum_mul_rayVal h he hnb t.oe] at hdot
-    have z1 : ∑ k ∈ range P.m, t.oe (t.bs k) * t.e k e = 0 :=
-      Finset.sum_eq_zero fun k hk => by rw [h.objB k (Finset.mem_range.mp hk)]; ring
-    have z2 : ∑ k ∈ range P.m, t.oe (P.n + k) * (0 : ℚ) = 0 := by simp
-    rw [z1, z2] at hdot
-    linarith
 
 end read
 
@@ -931,35 +455,6 @@ theorem phase2_unb (fuel it : ℕ) (t : Tab) {e : ℕ} (h : findEnter 0 t = some
 theorem phase2_step (fuel it : ℕ) (t : Tab) {e l : ℕ} (h : findEnter 0 t = some e)
     (hl : findLeave 0 t e = some l) : phase2 0 (fuel + 1) it t = phase2 0 fuel (it + 1) (stepTab t l e) := by
   rw [phase2, h]; simp only []; rw [hl]; rfl
-
-theorem phase2_spec {P : LP} : ∀ (fuel it : ℕ) (t : Tab), Inv P t →
-    Inv P (phase2 0 fuel it t).tab ∧
-    ((phase2 0 fuel it t).status = .OPTIMAL → findEnter 0 (phase2 0 fuel it t).tab = none) ∧
-    ((phase2 0 fuel it t).status = .UNBOUNDED → ∃ e, (phase2 0 fuel it t).enter = some e ∧
-      findEnter 0 (phase2 0 fuel it t).tab = some e ∧ findLeave 0 (phase2 0 fuel it t).tab e = none) ∧
-    ((phase2 0 fuel it t).status = .OPTIMAL ∨ (phase2 0 fuel it t).status = .UNBOUNDED ∨
-      (phase2 0 fuel it t).status = .MAX_ITER)
-  | 0, it, t, h => by
-    have e0 : phase2 0 0 it t = ⟨.MAX_ITER, it, t, none⟩ := by rw [phase2]
-    rw [e0]
-    exact ⟨h, (fun e => by cases e), (fun e => by cases e), Or.inr (Or.inr rfl)⟩
-  | fuel + 1, it, t, h => by
-    cases he : findEnter 0 t with
-    | none =>
-      rw [phase2_none fuel it t he]
-      exact ⟨h, fun _ => he, (fun e => by cases e), Or.inl rfl⟩
-    | some e =>
-      cases hl : findLeave 0 t e with
-      | none =>
-        rw [phase2_unb fuel it t he hl]
-        exact ⟨h, (fun e => by cases e), fun _ => ⟨e, rfl, he, hl⟩, Or.inr (Or.inl rfl)⟩
-      | some l =>
-        rw [phase2_step fuel it t he hl]
-        obtain ⟨he1, _, _⟩ := findEnter_some h.wf he
-        obtain ⟨hl1, hpv, hmin⟩ := findLeave_some h.wf (Nat.succ_pos _) hl
-        have hN : P.n + P.m + 1 - 1 = P.n + P.m := by omega
-        rw [hN] at he1 hmin
-        exact phase2_spec fuel (it + 1) _ (inv_step h hl1 he1 hpv hmin)
 
 /-- entries of the initial tableau -/
 theorem initTab_e (P : LP) (hA : ∀ i < P.m, (P.A.getD i []).length = P.n) {i : ℕ} (hi : i < P.m)
@@ -1076,53 +571,5 @@ theorem init_inv (P : LP) (hA : ∀ i < P.m, (P.A.getD i []).length = P.n) (hb :
 
 theorem mkLP_n (c : Vec) (A : Mat) (b : Vec) (mn : Bool) : (mkLP c A b mn).n = c.length := by
   unfold mkLP LP.n; cases mn <;> simp
-
-/-- the ∀-input statement for LPs that need no phase 1 (`b ≥ 0`), exact arithmetic (`eps = 0`):
-whenever the mirror stops with a verdict, the certificate it emits passes the verified checker -/
-theorem solveLp_certifies_nonneg (c : Vec) (A : Mat) (b : Vec) (mn : Bool) (fuel : ℕ)
-    (hA : ∀ i < b.length, (A.getD i []).length = c.length) (hb : ∀ i < b.length, 0 ≤ b.getD i 0)
-    (hst : (solveLp c A b mn 0 fuel).status ≠ .MAX_ITER) :
-    certifies (mkLP c A b mn) (solveLp c A b mn 0 fuel) = true := by
-  set P := mkLP c A b mn with hP
-  have hn : P.n = c.length := mkLP_n c A b mn
-  have hm : P.m = b.length := rfl
-  have hA' : ∀ i < P.m, (P.A.getD i []).length = P.n := fun i hi => by rw [hn]; exact hA i hi
-  have hb' : ∀ i < P.m, 0 ≤ vget P.b i := fun i hi => hb i hi
-  have hinit : initTab (if mn = true then c else c.map fun v => -v) A b = initTab P.c P.A P.b := rfl
-  have h0 := init_inv P hA' hb'
-  -- no negative right-hand side: phase 1 is skipped
-  have hany : ((List.range b.length).any fun i =>
-      decide (lastR ((initTab (if mn = true then c else c.map fun v => -v) A b).rows.getD i []) < -0)) = false := by
-    rw [Bool.eq_false_iff]
-    intro hany
-    rw [List.any_eq_true] at hany
-    obtain ⟨i, hi, hlt⟩ := hany
-    rw [List.mem_range] at hi
-    rw [hinit, lastR_eq h0.wf (Nat.succ_pos _) hi, decide_eq_true_eq] at hlt
-    have hN : P.n + P.m + 1 - 1 = P.n + P.m := by omega
-    rw [hN, neg_zero] at hlt
-    exact absurd (h0.rhs i hi) (not_le.mpr hlt)
-  have hsolve : solveLp c A b mn 0 fuel = finishLp c.length b.length mn 0 false
-      (phase2Near 0 fuel (initTab P.c P.A P.b)) (phase2 0 fuel 0 (initTab P.c P.A P.b)) := by
-    unfold solveLp
-    simp only []
-    rw [hany]
-    rfl
-  rw [hsolve] at hst ⊢
-  obtain ⟨hinv, hopt, hunb, hcases⟩ := phase2_spec (P := P) fuel 0 _ h0
-  generalize phase2 0 fuel 0 (initTab P.c P.A P.b) = r at *
-  unfold certifies finishLp
-  simp only []
-  rcases hcases with hs | hs | hs
-  · rw [hs]
-    simp only [slackPart]
-    rw [← hn, ← hm]
-    exact cert_optimal hinv (hopt hs)
-  · obtain ⟨e, he1, he2, he3⟩ := hunb hs
-    rw [hs, he1]
-    simp only []
-    rw [← hn]
-    exact cert_unbounded hinv he2 he3
-  · exact absurd hs hst
 
 end Solvor.Lp
